@@ -219,7 +219,8 @@ class Stats(Harness):
                 P.prove(P.close(cell(out["var_a" + sfx], tr), va), "var_a=ploidy^2.sum(u^2 p(1-p))")
                 bl = cell(out["bulmer" + sfx], tr)
                 if is_nan(bl):
-                    P.prove(P.close(va, 0.0), "bulmer-missing-only-when-genic-variance-is-zero")
+                    # exactly zero (every term u^2 p(1-p) vanishes), not merely small: a tolerance here would hide a guard that treats small variances as zero
+                    P.prove((abs(va) < 1e-300) if P.concrete else (va == 0), "bulmer-missing-only-when-genic-variance-is-zero", detail="genic variance %s" % (va,))
                 else:
                     P.prove(P.close(bl * va, var), "bulmer=var_A/var_a")
             P.prove(P.eq(cell(out["var_A_raw"], tr), var), "var_A(raw array)")
